@@ -1,6 +1,7 @@
 import Scion.Model.Net
 import Scion.Proofs.Net
 import Scion.Proofs.NetScmp
+import Scion.Proofs.NetScmp2
 /-!
 # C10 — SCMP replies and traceroute answers travel back to the sender
 
@@ -64,6 +65,81 @@ theorem scmp_reply_delivered_partial (mac : MacFn) (net : Net) (now src dst : Na
       followReply mac net now src ej.ia 0 (.ext ej.hop.cEg) rc = .delivered src trr cr :=
   up_expired_reply_run mac net now src dst core ts hWF hUp hSR bU βj top r1 ej r2 x exp' hcU hcD hβ
     hsrc hdst hnd hexpU hexp' fuel
+
+/-- **C10, SCMP errors of the ingress stage on single-segment paths, either direction, any
+    position** (one border router per AS — hence `_partial`).  The segment part used is described
+    by `FL` (forwarding order `e0`, `m1`, `ek`, …) as every registered edge is (`edge_spec`); `h'`
+    is the hop field the packet carries for the AS of `ek`.  Whenever that AS answers with an
+    SCMP error built on the packet as updated at ingress, the reply — reversed path, SegID
+    re-adjusted when the reversed segment runs in construction direction, pointer moved to the previous
+    AS — is accepted by every AS on the way back and delivered in the source AS. -/
+theorem scmp_error_reply_delivered_partial (mac : MacFn) (net : Net) (now src dst : Nat)
+    (core cd : Bool) (ts : Nat) (hUp : AllUp net) (hSR : SingleRouter net)
+    (seg0 : Nat) (e0 : ASE) (m1 : List ASE) (ek : ASE) (h' : Hop) (t k : Nat) (tlh : List Hop)
+    (hFL : FL mac net core cd ts seg0 (e0 :: (m1 ++ [ek])))
+    (hsrc : src = e0.ia) (hsd : src ≠ dst)
+    (hnd : ((e0 :: (m1 ++ [ek])).map (·.ia)).Nodup)
+    (hmidd : ∀ e ∈ m1, e.ia ≠ dst)
+    (hexpU : ∀ e ∈ e0 :: m1, expired now ts e.hop.exp = false)
+    (hstop : routerStep mac (cfgOf net ek.ia) now (.ext (inF cd ek)) (ek.ia == src) (ek.ia == dst)
+        ⟨[], ⟨cd, false, Scion.SegID.extractBeta (Scion.SegID.updateSegID seg0 (pfx e0.hop.mac)) (sig m1), ts⟩,
+          hopOf e0.hop :: m1.map (fun e => hopOf e.hop), h', tlh, []⟩ =
+      .slow t k 0 ⟨[], ⟨cd, false, usedSeg cd (Scion.SegID.extractBeta
+            (Scion.SegID.updateSegID seg0 (pfx e0.hop.mac)) (sig m1)) h', ts⟩,
+          hopOf e0.hop :: m1.map (fun e => hopOf e.hop), h', tlh, []⟩) (fuel : Nat) :
+    ∃ tr c1 rc trr cr,
+      run mac net now src dst (fuel + 2 + m1.length) src 0 .host
+        ⟨[], ⟨cd, false, usedAt cd seg0 e0, ts⟩, [], hopOf e0.hop,
+          (m1.map fun e => hopOf e.hop) ++ h' :: tlh, []⟩ [] =
+        .stopped ek.ia 0 (.ext (inF cd ek)) (.slow t k 0 c1) tr ∧
+      replyOf (.slow t k 0 c1) (.ext (inF cd ek)) = some rc ∧
+      followReply mac net now src ek.ia 0 (.ext (inF cd ek)) rc = .delivered src trr cr :=
+  slow_reply_run mac net now src dst core cd ts hUp hSR seg0 e0 m1 ek h' t k tlh hFL hsrc hsd hnd hmidd
+    hexpU hstop fuel
+
+/-- instance: an expired hop field (the hypothesis `hstop` is discharged by `expired_step`) -/
+theorem scmp_expired_reply_delivered_partial (mac : MacFn) (net : Net) (now src dst : Nat)
+    (core cd : Bool) (ts : Nat) (hUp : AllUp net) (hSR : SingleRouter net)
+    (seg0 : Nat) (e0 : ASE) (m1 : List ASE) (ek : ASE) (exp' : Nat) (tlh : List Hop)
+    (hFL : FL mac net core cd ts seg0 (e0 :: (m1 ++ [ek])))
+    (hsrc : src = e0.ia) (hsd : src ≠ dst)
+    (hnd : ((e0 :: (m1 ++ [ek])).map (·.ia)).Nodup)
+    (hmidd : ∀ e ∈ m1, e.ia ≠ dst)
+    (hexpU : ∀ e ∈ e0 :: m1, expired now ts e.hop.exp = false)
+    (hexp' : expired now ts exp' = true) (fuel : Nat) :
+    ∃ tr c1 rc trr cr,
+      run mac net now src dst (fuel + 2 + m1.length) src 0 .host
+        ⟨[], ⟨cd, false, usedAt cd seg0 e0, ts⟩, [], hopOf e0.hop,
+          (m1.map fun e => hopOf e.hop) ++ { hopOf ek.hop with exp := exp' } :: tlh, []⟩ [] =
+        .stopped ek.ia 0 (.ext (inF cd ek)) (.slow 4 52 0 c1) tr ∧
+      replyOf (.slow 4 52 0 c1) (.ext (inF cd ek)) = some rc ∧
+      followReply mac net now src ek.ia 0 (.ext (inF cd ek)) rc = .delivered src trr cr :=
+  expired_reply_run mac net now src dst core cd ts hUp hSR seg0 e0 m1 ek exp' tlh hFL hsrc hsd hnd hmidd
+    hexpU hexp' fuel
+
+/-- instance: a hop field whose MAC no longer verifies (`badmac_step`) -/
+theorem scmp_badmac_reply_delivered_partial (mac : MacFn) (net : Net) (now src dst : Nat)
+    (core cd : Bool) (ts : Nat) (hUp : AllUp net) (hSR : SingleRouter net)
+    (seg0 : Nat) (e0 : ASE) (m1 : List ASE) (ek : ASE) (mac' : Nat) (tlh : List Hop)
+    (hFL : FL mac net core cd ts seg0 (e0 :: (m1 ++ [ek])))
+    (hsrc : src = e0.ia) (hsd : src ≠ dst)
+    (hnd : ((e0 :: (m1 ++ [ek])).map (·.ia)).Nodup)
+    (hmidd : ∀ e ∈ m1, e.ia ≠ dst)
+    (hexpU : ∀ e ∈ e0 :: (m1 ++ [ek]), expired now ts e.hop.exp = false)
+    (hdl : tlh.isEmpty = (ek.ia == dst))
+    (hbad : macOk mac (net ek.ia).key
+      ⟨cd, false, usedSeg cd (Scion.SegID.extractBeta (Scion.SegID.updateSegID seg0 (pfx e0.hop.mac)) (sig m1))
+        { hopOf ek.hop with mac := mac' }, ts⟩ { hopOf ek.hop with mac := mac' } = false)
+    (fuel : Nat) :
+    ∃ tr c1 rc trr cr,
+      run mac net now src dst (fuel + 2 + m1.length) src 0 .host
+        ⟨[], ⟨cd, false, usedAt cd seg0 e0, ts⟩, [], hopOf e0.hop,
+          (m1.map fun e => hopOf e.hop) ++ { hopOf ek.hop with mac := mac' } :: tlh, []⟩ [] =
+        .stopped ek.ia 0 (.ext (inF cd ek)) (.slow 4 51 0 c1) tr ∧
+      replyOf (.slow 4 51 0 c1) (.ext (inF cd ek)) = some rc ∧
+      followReply mac net now src ek.ia 0 (.ext (inF cd ek)) rc = .delivered src trr cr :=
+  badmac_reply_run mac net now src dst core cd ts hUp hSR seg0 e0 m1 ek mac' tlh hFL hsrc hsd hnd hmidd
+    hexpU hdl hbad fuel
 
 /-- a stopped packet is only ever answered by the AS that stopped it, over the link it came in on:
     `followReply` starts at the neighbour on that link (definitional, recorded for the reader) -/
